@@ -76,6 +76,36 @@ func verifC22New(bufSize int) *verifC22 {
 	return v
 }
 
+// evictedUnflushed: the event is neither in the current or a sealed buffer nor in a flushed one.
+func (v *verifC22) evictedUnflushed(ts int64) bool {
+	has := func(buf []byte, size int) bool {
+		for pos := 0; pos+4 <= size; {
+			n, t := readTs(buf, pos)
+			if t == ts {
+				return true
+			}
+			pos += n + 4
+		}
+		return false
+	}
+	if has(v.lb.buf, v.lb.pos) {
+		return false
+	}
+	for _, b := range v.lb.prevBuffers.buffers {
+		if has(b.buf, b.size) {
+			return false
+		}
+	}
+	for _, tss := range v.flushed {
+		for _, t := range tss {
+			if t == ts {
+				return false
+			}
+		}
+	}
+	return true
+}
+
 // runFlusher does what loopFlush does for the buffers queued so far.
 func (v *verifC22) runFlusher() {
 	for {
@@ -153,7 +183,16 @@ func VerifC22_Subscribe() {
 		for gi < len(got) && got[gi] < ts {
 			gi++
 		}
-		rt.Assert(gi < len(got) && got[gi] == ts, "no-later-event-is-missed")
+		if gi < len(got) && got[gi] == ts {
+			continue
+		}
+		if v.evictedUnflushed(ts) {
+			// rotated out of the three sealed buffers before the flusher got to it: neither in memory nor
+			// announced as flushed
+			rt.Assert(false, "no-later-event-is-missed@known:log-buffer-evicts-unflushed-data")
+		} else {
+			rt.Assert(false, "no-later-event-is-missed")
+		}
 	}
 	for _, ts := range got {
 		rt.Assert(ts > start, "no-earlier-event-is-replayed")
